@@ -7,7 +7,7 @@ from unittest import mock
 
 from hypothesis import strategies as st
 
-from vf.api import Expect, Kind, ok, trivial, violation
+from vf.api import Inconclusive, Expect, Kind, ok, trivial, violation
 from vf.lib import c04_crash as cc
 from vf.seam import ft
 
@@ -107,8 +107,11 @@ def _crash(run, src, dst, k, when, partial, expect_op):
             k, c.count))
     got = c.log[k][1]
     if got != expect_op:
-        raise AssertionError("operation sequence changed between runs: "
-                             "op %d is %s, recorded %s" % (k, got, expect_op))
+        # the subject did not repeat the recorded sequence (bzrformats orders
+        # packs of equal size by object address; the autopack plan is pinned in
+        # run(), other orders are not): this crash point cannot be judged
+        raise Inconclusive("operation sequence changed between runs: "
+                           "op %d is %s, recorded %s" % (k, got, expect_op))
     return c
 
 
@@ -132,8 +135,38 @@ def _partials(name, size, tier):
     return sorted(out)
 
 
+class _ByName:
+    """Stands in for a Pack while the autopack plan is sorted: packs with the
+    same revision count compare by name instead of by object address
+    (bzrformats' Pack.__lt__), so that the recorded run and the crash runs plan
+    the same combination.  Either order is one the subject can produce."""
+
+    def __init__(self, pack):
+        self.pack = pack
+
+    def __lt__(self, other):
+        return self.pack.name < other.pack.name
+
+    def __gt__(self, other):
+        return self.pack.name > other.pack.name
+
+    def __eq__(self, other):
+        return self.pack is other.pack
+
+    def __hash__(self):
+        return hash(self.pack.name)
+
+
 def run(case, env):
-    with mock.patch("breezy.lockdir._DEFAULT_TIMEOUT_SECONDS", 0):
+    from breezy.bzr.pack_repo import RepositoryPackCollection as RPC
+    o_plan = RPC.plan_autopack_combinations
+
+    def plan(self, existing_packs, pack_distribution):
+        ops = o_plan(self, [(c, _ByName(p)) for c, p in existing_packs],
+                     pack_distribution)
+        return [[n, [w.pack for w in ws]] for n, ws in ops]
+    with mock.patch("breezy.lockdir._DEFAULT_TIMEOUT_SECONDS", 0), \
+            mock.patch.object(RPC, "plan_autopack_combinations", plan):
         return _run(case, env)
 
 
